@@ -10,7 +10,8 @@
 EXTENDS ConfP
 
 \* field -> set of <<state, "acc" | "rej">> : the effect of that state alone
-MTab(f) == CASE f = "target" -> {<<"host", "acc">>, <<"vip", "acc">>, <<"route", "acc">>, <<"cluster", "acc">>,
+MTab(f) == CASE f \in {"sPos", "tPos"} -> {<<"only", "acc">>, <<"first", "acc">>, <<"middle", "acc">>, <<"last", "acc">>}
+  [] f = "target" -> {<<"host", "acc">>, <<"vip", "acc">>, <<"route", "acc">>, <<"cluster", "acc">>,
                                  <<"gslb", "acc">>, <<"ctable", "acc">>}
   [] f = "hVersion" -> {<<"ok", "acc">>, <<"absent", "rej">>, <<"null", "rej">>, <<"badtype", "rej">>, <<"empty", "acc">>}
   [] f = "hDefault" -> {<<"null", "acc">>, <<"absent", "acc">>, <<"ok", "acc">>, <<"dangling", "rej">>, <<"badtype", "rej">>, <<"empty", "rej">>}
@@ -53,12 +54,17 @@ MVerdict(k, s) ==
       \* convert(): "no product rule" when both sections are missing
       noSection == sdc /\ s["rProductRule"] \in {"absent", "null"} /\ s["rBasicRule"] \in {"absent", "null"}
       \* ServerDataConf.check: a cluster_conf without clusters only fails when some rule names a cluster
-      refs == sdc /\ (~NoRules(s["rProductRule"]) \/ ~NoRules(s["rBasicRule"]))
+      \* (a basic rule whose target is ADVANCED_MODE names no cluster)
+      refs == sdc /\ (~NoRules(s["rProductRule"])
+                      \/ (~NoRules(s["rBasicRule"]) /\ ~(s["rBasicRule"] = "ok" /\ s["rBasicCluster"] = "advmode" /\ s["sPos"] = "only")))
       cfgEmptyOnly == sdc /\ s["cConfig"] = "empty" /\ ~refs
                       /\ \A f \in FieldSet(k) \ {"cConfig"} : MClass(f, s[f]) = "acc"
       \* HostTags without the product / the tag only fails through Hosts or the route products
       tagsGoneOnly == sdc /\ s["hHostTags"] \in {"empty", "vempty"} /\ ~refs
                       /\ s["hHosts"] \in {"empty"} /\ s["hDefault"] \in {"null", "absent"}
                       /\ \A f \in FieldSet(k) \ {"hHostTags"} : MClass(f, s[f]) = "acc"
-  IN IF (single /\ ~cfgEmptyOnly /\ ~tagsGoneOnly) \/ noSection \/ BothBlank(k, s) THEN "rej" ELSE "acc"
+      \* SubClusterBackend.Check: a zero weight only fails when no sibling has a positive weight
+      zeroPadded == k = "ctable" /\ s["tWeight"] = "zero" /\ s["tPos"] # "only"
+                    /\ \A f \in FieldSet(k) \ {"tWeight"} : MClass(f, s[f]) = "acc"
+  IN IF (single /\ ~cfgEmptyOnly /\ ~tagsGoneOnly /\ ~zeroPadded) \/ noSection \/ BothBlank(k, s) THEN "rej" ELSE "acc"
 =========================================================================
